@@ -7,8 +7,22 @@ use std::sync::Arc;
 /// alive, i.e. the number of times the real consumer thread would have parked (possibly forever)
 pub static WOULD_BLOCK: AtomicUsize = AtomicUsize::new(0);
 
+/// rely: one-shot interference at the entry of a blocking receive. A harness installs a function
+/// that performs what ANOTHER thread does between the consumer's last check and its recv()
+/// (for example the last handle's drop requesting the stop).
+pub static mut BEFORE_RECV: Option<fn()> = None;
+fn interfere_before_recv() {
+    #[allow(static_mut_refs)]
+    let f = unsafe { BEFORE_RECV.take() };
+    if let Some(f) = f { f(); }
+}
+
 pub const SLOTS: usize = 3;
-pub struct Inner<T> { pub q: [Cell<Option<T>>; SLOTS], pub len: Cell<usize>, pub cap: Option<usize> }
+/// `parked`: the consumer is blocked inside recv() on an empty channel (set when a receive would
+/// block, cleared when a receive is entered). `timeouts`: consecutive timed receives that found the
+/// channel empty. A ZERO-capacity channel (`cap == Some(0)`) is a rendezvous: a send succeeds only
+/// while the consumer is parked, and the message is then in the consumer's hands (slot 0).
+pub struct Inner<T> { pub q: [Cell<Option<T>>; SLOTS], pub len: Cell<usize>, pub cap: Option<usize>, pub parked: Cell<bool>, pub timeouts: Cell<usize> }
 unsafe impl<T: Send> Sync for Inner<T> {}
 unsafe impl<T: Send> Send for Inner<T> {}
 impl<T> std::panic::RefUnwindSafe for Inner<T> {}
@@ -28,9 +42,11 @@ pub enum TryRecvError { Empty, Disconnected }
 /// is sequential: "would block" is the quiescent point of the consumer and is reported as Err.
 #[derive(Debug)]
 pub struct RecvError;
+#[derive(Debug)]
+pub enum RecvTimeoutError { Timeout, Disconnected }
 
 fn mk<T>(cap: Option<usize>) -> (Sender<T>, Receiver<T>) {
-    let i = Arc::new(Inner { q: [Cell::new(None), Cell::new(None), Cell::new(None)], len: Cell::new(0), cap });
+    let i = Arc::new(Inner { q: [Cell::new(None), Cell::new(None), Cell::new(None)], len: Cell::new(0), cap, parked: Cell::new(false), timeouts: Cell::new(0) });
     (Sender { inner: i.clone() }, Receiver { inner: i })
 }
 pub fn bounded<T>(cap: usize) -> (Sender<T>, Receiver<T>) { mk(Some(cap)) }
@@ -42,6 +58,14 @@ impl<T> Sender<T> {
     pub fn is_full(&self) -> bool { self.inner.cap.map_or(false, |c| self.inner.len.get() >= c) }
     pub fn try_send(&self, msg: T) -> Result<(), TrySendError<T>> {
         let n = self.inner.len.get();
+        if self.inner.cap == Some(0) {
+            // rendezvous: only a consumer that is parked in recv() right now can take the message
+            if !(self.inner.parked.get() && n == 0) { return Err(TrySendError::Full(msg)); }
+            self.inner.parked.set(false);
+            self.inner.q[0].set(Some(msg));
+            self.inner.len.set(1);
+            return Ok(());
+        }
         if let Some(c) = self.inner.cap { if n >= c { return Err(TrySendError::Full(msg)); } }
         // verification bound: the shim holds at most SLOTS entries
         #[cfg(kani)] kani::assume(n < SLOTS);
@@ -61,8 +85,27 @@ impl<T> Receiver<T> {
         Ok(v)
     }
     pub fn recv(&self) -> Result<T, RecvError> {
-        if self.inner.len.get() == 0 { WOULD_BLOCK.fetch_add(1, Ordering::SeqCst); }
+        self.inner.parked.set(false);
+        interfere_before_recv();
+        if self.inner.len.get() == 0 { WOULD_BLOCK.fetch_add(1, Ordering::SeqCst); self.inner.parked.set(true); }
         self.try_recv().map_err(|_| RecvError)
+    }
+    /// Timed receive. On an empty channel the FIRST call reports `Timeout` (the timer fired: the
+    /// caller gets to look at its own state again); a second consecutive one is the quiescent point
+    /// of the consumer (nothing can change any more in a sequential execution) and is reported as
+    /// `Disconnected`, like the blocking `recv()`.
+    pub fn recv_timeout(&self, _d: std::time::Duration) -> Result<T, RecvTimeoutError> {
+        self.inner.parked.set(false);
+        interfere_before_recv();
+        if self.inner.len.get() == 0 {
+            if self.inner.timeouts.get() == 0 { self.inner.timeouts.set(1); return Err(RecvTimeoutError::Timeout); }
+            WOULD_BLOCK.fetch_add(1, Ordering::SeqCst);
+            self.inner.parked.set(true);
+            self.inner.timeouts.set(0);
+            return Err(RecvTimeoutError::Disconnected);
+        }
+        self.inner.timeouts.set(0);
+        self.try_recv().map_err(|_| RecvTimeoutError::Disconnected)
     }
     pub fn capacity(&self) -> Option<usize> { self.inner.cap }
     pub fn is_full(&self) -> bool { self.inner.cap.map_or(false, |c| self.inner.len.get() >= c) }
